@@ -125,7 +125,7 @@ func c07(c *Ctx) {
 		if w.Init {
 			continue
 		}
-		if w.Element {
+		if w.Element && inPlacePush(w, "bucket", "replacements") == nil {
 			r.Fail("R2.replacements-growth", m.key(w, "element-store"), p.Pos(w.Store.Pos()), "an element of bucket.replacements is overwritten in place")
 			continue
 		}
@@ -136,6 +136,8 @@ func c07(c *Ctx) {
 			if isCall {
 				maxArg = call.Call.Args[len(call.Call.Args)-1]
 			} else if ip := inlinePush(w.Val); ip != nil {
+				maxArg, removed = ip.max, ip.removed
+			} else if ip := inPlacePush(w, "bucket", "replacements"); ip != nil {
 				maxArg, removed = ip.max, ip.removed
 			}
 			n, isC := core.ConstInt(maxArg)
